@@ -169,8 +169,50 @@ func c05Stream(c *sim.Ctx) (stream []byte, plans []string) {
 	return
 }
 
+// c05Repeat: ONE frame of exactly k MiB decoded a dozen times in a row in one
+// run. Work per decode must stay what it was the first time: a decoder that keeps
+// something per process for large frames (a token, a pooled buffer, a counter)
+// must give it back every time. A decode that never returns is reported by the
+// process watchdog as "does not return" (also when the library waits for itself).
+func c05Repeat(c *sim.Ctx) *sim.Violation {
+	k := []int{1, 2, 4, 5, 8, 10, 16}[int(c.Run/3+c.Seed)%7]
+	n := k << 20
+	body := make([]byte, n)
+	copy(body, []byte{0, 1, 't', 0})
+	frame := append(ref.AppendVarint([]byte{0x30}, uint32(n)), body...)
+	var first uint64
+	for i := 0; i < 12; i++ {
+		rd := link.NewReader(c.Muted(), frame, link.Mode{})
+		c05ArmReader(rd)
+		a0 := heapAllocs()
+		var p mq.Packet
+		var err error
+		pi := sim.Guard(func() { p, err = mq.ReadPacket(rd) })
+		a1 := heapAllocs()
+		c05Disarm()
+		if pi != nil || err != nil || p == nil {
+			if pi != nil && pi.Step {
+				return sim.V("C05/ReadPacket/steps/"+pi.Site, "decode number %d of the same PUBLISH of %d MiB exceeded its step budget at %s", i+1, k, pi.Site)
+			}
+			c.Count("skipped.repeat-not-decoded")
+			return nil
+		}
+		if i == 0 {
+			first = a1 - a0
+		} else if a1-a0 > 4*first+(64<<10) {
+			return sim.V("C05/ReadPacket/alloc/repeated-large-frame", "decode number %d of the same PUBLISH of %d MiB allocated %d bytes, the first decode %d", i+1, k, a1-a0, first)
+		}
+	}
+	c.Count(fmt.Sprintf("probe.the-same-%d-MiB-frame-decoded-12-times", k))
+	c.DistinctStr(fmt.Sprintf("repeat/%d", k))
+	return nil
+}
+
 func runC05(c *sim.Ctx) *sim.Violation {
 	t := c.T
+	if c.Run%3 == 2 && c.Run < 21 {
+		return c05Repeat(c)
+	}
 	stream, plans := c05Stream(c)
 	r := link.NewReader(c, stream, link.Mode{Chunk: t.Bool(1, 3)})
 	desc := func() string { return fmt.Sprintf("stream %s (fault plans %v)", hexs(stream), plans) }
